@@ -127,6 +127,10 @@ func parseDSLNow(text string, modular bool) (res parseResult, model *openfgav1.A
 	if model == nil {
 		return parseResult{NilErr: true}, nil
 	}
+	if rel := modelTooDeep(model); rel != "" {
+		// not a tree: nothing downstream (printer, JSON encoder, comparison) terminates on it
+		return parseResult{Panic: "the returned model is not a tree: the rewrite of " + rel + " contains itself"}, nil
+	}
 	return parseResult{OK: true, M: absModel(model, false)}, model
 }
 
